@@ -200,7 +200,9 @@ def c05(run):
 
 def c06(run):
     gens = [("Gen_Func", "fn", 1, 1, 4000, 60000, ["FuncLaw", "EmitFn"], 1000),
-            ("Gen_Func", "fn500", 3, 1, 1000, 20000, ["EmitFn"], 500)]
+            ("Gen_Func", "fn500", 3, 1, 1000, 20000, ["EmitFn"], 500),
+            # histogram_quantile: the case analysis of the reference's bucketQuantile, transcribed in PromQLRef
+            ("Gen_Hist", "hist", 128, 16, 1000, 12000, ["HistLaw", "EmitHq"], 1000)]
     return query_check(
         run, gens, RESULT,
         rule=("TLC enumerates every presence history of m{a=x} over a 4-tick period x patterns of the second series x value domains "
@@ -208,8 +210,11 @@ def c06(run):
               "(a scalar-typed expression has exactly one value per step, scalar(v) is NaN unless v has one element, a pinned selector "
               "denotes one vector for all steps) is model-checked on every scenario; the expression shape (40 shapes over all native "
               "functions, clamp* with literal / per-step / sometimes-absent scalars, timestamp, scalar, vector, unary minus, pinned "
-              "parts, top-level scalars) is chosen by the seeded hash. distinct_nontrivial = structural scenarios on which PromQLRef "
-              "agreed with Prometheus."),
+              "parts, top-level scalars) is chosen by the seeded hash. Gen_Hist.tla enumerates histogram_quantile over 17 bucket layouts "
+              "(the case analysis of the reference's bucketQuantile, transcribed in PromQLRef: non-monotonic and NaN counts, no +Inf "
+              "bucket, one / two buckets, bounds given twice, unparsable and non-positive bounds, no observations) x every presence "
+              "history of a bucket x 9 quantiles (incl. NaN, out of range, per-step scalar) x operand shapes x 1/4/14 steps; HistLaw is "
+              "model-checked on every one. distinct_nontrivial = structural scenarios on which PromQLRef agreed with Prometheus."),
         assumptions=["Prometheus v0.40.1 is the reference", "values of transcendental functions are OPAQUE in the spec and compared with the reference by the Go comparator"])
 
 
@@ -233,10 +238,12 @@ def c01(run):
 ALL_GENS = [("Gen_Selector", "sel", 16, 24, ["EmitSel"], 1000), ("Gen_Window", "win", 8, 16, ["EmitWin"], 1000),
             ("Gen_Agg", "agg", 1, 1, ["EmitAgg"], 1000), ("Gen_Bin", "bin", 1, 1, ["EmitBin"], 1000),
             ("Gen_Func", "fn", 1, 1, ["EmitFn"], 1000), ("Gen_Compose", "cmp", 8, 8, ["EmitCmp"], 1000),
-            # many series (0..40 of one metric, several per group and per shard) under a basket of 27 queries
+            # many series (0..40 of one metric, several per group and per shard) under a basket of 31 queries
             ("Shards", "shard", 2, 1, ["EmitShard"], 1000),
             # degenerate / colliding / extreme inputs (holes, hand-overs between metrics, histograms, 1e308, denormals)
-            ("Gen_WF", "wf", 1, 1, ["EmitWF"], 1000)]
+            ("Gen_WF", "wf", 1, 1, ["EmitWF"], 1000),
+            # histogram_quantile over malformed, NaN-holding, non-monotonic and colliding histograms
+            ("Gen_Hist", "hist", 128, 16, ["EmitHq"], 1000)]
 
 
 def all_scenarios(run, cap_quick, cap_thorough, only=None):
@@ -473,7 +480,7 @@ def c08(run):
     viols, stats = vlib.validate(run, "FallbackTrace", traces, "fb")
     st = sum_stats(stats)
     hdr = headers_of(traces, {x[0] for x in viols})
-    attribute(run, viols, hdr, lambda clause, fam: ["C08"] if clause in ("F1", "F2", "F3", "F4") else (["C13", "C08"] if clause == "ProcessDead" else []))
+    attribute(run, viols, hdr, lambda clause, fam: ["C08"] if clause in ("F1", "F2", "F3", "F4", "F5") else (["C13", "C08"] if clause == "ProcessDead" else []))
     run.cov["traces_validated_against_impl"] = st.get("sc", 0)
     run.cov["samples"] = [{"query": s.get("q")} for s in scs[:5]]
     run.cov["fallback_stats"] = st
@@ -484,8 +491,9 @@ def c08(run):
                              "Gen_Fallback.tla enumerates the complete vocabulary emitted from the pinned parser at check time (every function of "
                              "parser.Functions with type-correct arguments, every aggregation operator, every binary/set operator with "
                              "modifiers, subqueries, string literals, range vectors, @/offset) in the tier's syntactic positions x instant/range; "
-                             "every text is created with fallback on and off, executed, and compared with the reference engine; TLC validates "
-                             "clauses F1-F4 of FallbackTrace.tla. distinct_nontrivial = valid query texts."),
+                             "every text is created with fallback on and off, executed, and compared with the reference engine, and the construct "
+                             "it is built around is created on its own; TLC validates clauses F1-F5 of FallbackTrace.tla (F5: a vector or scalar "
+                             "construct that falls back on its own is never part of a natively evaluated query). distinct_nontrivial = valid query texts."),
                        assumptions=["path taken = dynamic type of the returned query object", "counter read from Opts.Reg"],
                        distinct_nontrivial=st.get("valid", 0))
 
@@ -507,7 +515,7 @@ def c11(run):
     return vlib.finish(run, "model_checking",
                        rule=("Shards.tla: for all n <= 40 series and N <= 8 shards the shard slices partition the series and the re-based IDs are "
                              "an order-preserving bijection (TLC, exhaustive). Scenarios with 0..40 series (every remainder of n mod shards) over a "
-                             "27-query basket covering every operator kind, plus general and random scenarios, are executed under GOMAXPROCS "
+                             "31-query basket covering every operator kind, plus general and random scenarios, are executed under GOMAXPROCS "
                              "1,2,3,4,5,6,8,12,16, seeded permutations of the storage's series order, decoy series, seeded yields/sleeps in storage "
                              "callbacks and at the engine's scheduling points (hook H2), and repetitions; SessionTrace.tla (result independent of "
                              "all of these) is validated by TLC. distinct_nontrivial = executions compared with the first of their scenario."),
@@ -520,12 +528,14 @@ def c20(run):
     quick = run.tier == "quick"
     scs = []
     # long histories by simulation (the machine is Session.tla)
-    for (ops, num, depth, name) in ([(12, 60, 14, "h12"), (30, 80, 32, "h30"), (50, 40, 52, "h50")] if quick else [(12, 600, 14, "h12"), (30, 1200, 32, "h30"), (50, 800, 52, "h50")]):
-        cfg = ("SPECIFICATION Spec\nCONSTANTS\n Tier = \"%s\"\n Seed = %d\n Mod = 1\n TickMs = 1000\n MaxOps = %d\nINVARIANTS EmitHist\nCHECK_DEADLOCK FALSE\n" % (run.tier, run.seed, ops))
+    # (s30 / s50: histories whose queries are drawn from three queries of the basket, chosen per history)
+    for (ops, num, depth, name, subsize) in ([(12, 60, 14, "h12", 0), (30, 80, 32, "h30", 0), (50, 40, 52, "h50", 0), (30, 240, 32, "s30", 3)] if quick
+                                            else [(12, 600, 14, "h12", 0), (30, 1200, 32, "h30", 0), (50, 800, 52, "h50", 0), (30, 1500, 32, "s30", 3), (50, 500, 52, "s50", 3)]):
+        cfg = ("SPECIFICATION Spec\nCONSTANTS\n Tier = \"%s\"\n Seed = %d\n Mod = 1\n TickMs = 1000\n MaxOps = %d\n SubSize = %d\nINVARIANTS EmitHist\nCHECK_DEADLOCK FALSE\n" % (run.tier, run.seed, ops, subsize))
         got = vlib.generate(run, "Session", cfg, name, fam="C20", workers=1, timeout=1500, cap=num,
                             simulate="num=%d" % num, depth=depth)
         scs += got
-        log("Session.tla -simulate: %d histories of %d operations" % (len(got), ops))
+        log("Session.tla -simulate: %d histories of %d operations%s" % (len(got), ops, " over 3 queries each" if subsize else ""))
     chunks = max(1, min(vlib.NCPU // 2, len(scs) // 20))
     traces = vlib.replay(run, binary, "session", scs, "se", chunks=chunks)
     st = session_validate(run, traces, lambda clause, fam: ["C20"] if clause in ("Agree", "ReturnedResultsImmutable") else ([run.prop, "C13"] if clause == "ProcessDead" else []))
@@ -533,7 +543,7 @@ def c20(run):
     if st.get("obs", 0) == 0 or st.get("snaps", 0) == 0:
         vacuous(run, "vacuous run")
     return vlib.finish(run, "model_checking",
-                       rule=("TLC -simulate walks Session.tla (operations: execute one of 14 queries - native, failing with many-to-many, falling "
+                       rule=("TLC -simulate walks Session.tla (operations: execute one of 25 queries - native, failing with many-to-many, falling "
                              "back, subquery - over 3 windows, plainly or with the context cancelled before/during execution; append samples, a "
                              "new series, a staleness marker, a gap; close an earlier query) to histories of 12, 30 and 50 operations. Each is "
                              "replayed on ONE engine and one growing storage: after every operation every earlier result is compared with its "
